@@ -28,7 +28,7 @@ import (
 // with every watcher last called with it.
 func TestC06StateBlob(t *testing.T) {
 	rep := ev.NewReport("C06", "stateblob")
-	rep.Bound = "sender holding 2..3 keys (ring codec and partition-ring codec), receiver empty or already holding an older full state; every order of the frames of the sender's full state; every truncation length and every single-byte substitution by 0x00 / 0xFF of the payload; then the intact payload"
+	rep.Bound = "sender holding 2..3 keys (ring codec and partition-ring codec), receiver empty or already holding an older full state; every order of the frames of the sender's full state; every truncation length, every single-byte substitution by 0x00 / 0xFF and every frame length prefix overwritten with boundary values (0, 1, len±1, 2^31-1, 2^31, 2^32-5..2^32-1) of the payload; then the intact payload"
 	rep.Rule = "MergeRemoteState on the real detached node with WatchKey watchers on every key and a WatchPrefix watcher: after the mutated payload, for every key whose exposed value differs from the one before, the key watcher and the prefix watcher were last called with exactly that value (and no watcher was called with anything but the exposed value); after the intact payload every key equals the sender's value and every watcher was last called with it; no panic; distinct_nontrivial = distinct (order, mutation) whose payload merged a strict, non-empty subset of the keys"
 
 	ctx := context.Background()
@@ -190,6 +190,16 @@ func TestC06StateBlob(t *testing.T) {
 			label := fmt.Sprintf("frames in order %v", p)
 			for l := 0; l <= len(src); l++ {
 				muts = append(muts, mut{append([]byte(nil), src[:l]...), fmt.Sprintf("%s truncated to %d of %d", label, l, len(src)), true})
+			}
+			// every frame's 4-byte length prefix overwritten with boundary values (wrap-around of "4 + length" included)
+			for off := 0; off < len(src); {
+				l := int(uint32(src[off])<<24 | uint32(src[off+1])<<16 | uint32(src[off+2])<<8 | uint32(src[off+3]))
+				for _, v := range []uint32{0, 1, uint32(l - 1), uint32(l + 1), 0x7FFFFFFF, 0x80000000, 0xFFFFFFFB, 0xFFFFFFFC, 0xFFFFFFFD, 0xFFFFFFFE, 0xFFFFFFFF} {
+					d := append([]byte(nil), src...)
+					d[off], d[off+1], d[off+2], d[off+3] = byte(v>>24), byte(v>>16), byte(v>>8), byte(v)
+					muts = append(muts, mut{d, fmt.Sprintf("%s length prefix at %d := %#x", label, off, v), false})
+				}
+				off += 4 + l
 			}
 			for i := range src {
 				for _, v := range []byte{0x00, 0xFF} {
